@@ -260,4 +260,233 @@ theorem Phase.unique {t : Table} {fixB : Int → Bool} {f : Option Nat}
       · have := ih r'' (by simpa using hfv) hv'; omega
     | jump _ _ _ _ => rfl
 
+/-! ### from scans to root paths -/
+
+theorem Scan.of_neg {t : Table} {fixB : Int → Bool} {p q : Int} {j : Nat} (h : Scan t fixB p j q) (hp : p < 0) :
+    j = 0 ∧ q = p := by
+  cases h with
+  | here => exact ⟨rfl, rfl⟩
+  | skip h0 _ _ _ => omega
+
+/-- The nodes passed over by a scan are a prefix of the root path; each of them is a non-fix node with a
+positive phase. -/
+theorem Scan.path {t : Table} (hw : WF t) {fixB : Int → Bool} {f : Option Nat} {p q : Int} {j : Nat}
+    (h : Scan t fixB p j q) : ∀ (v : Int) (r : Nat), Phase t fixB f v r → parentOf t v = some p →
+      (∀ k, f = some k → r + j ≤ k) → p ∈ ids t →
+      ∃ pre : List Int, pre.length = j ∧ (∀ u ∈ pre, fixB u = false ∧ ∃ m, Phase t fixB f u (m + 1)) ∧
+        ((q ∈ ids t ∧ rootPath t p = pre ++ rootPath t q) ∨ (q < 0 ∧ rootPath t p = pre)) := by
+  induction h with
+  | here p => intro v r _ _ _ hp; exact ⟨[], rfl, by simp, Or.inl ⟨hp, rfl⟩⟩
+  | @skip p p' q j h0 hnf hpp hsc ih =>
+    intro v r hv hvp hb hp
+    have hph : Phase t fixB f p (r + 1) := .skip hv (fun k hk => by have := hb k hk; omega) hvp h0 hnf
+    obtain ⟨n, hfd, hn, _, hnp⟩ := parentOf_some hpp
+    by_cases hneg : p' < 0
+    · obtain ⟨hj, hq⟩ := hsc.of_neg hneg
+      refine ⟨[p], by simp [hj], ?_, Or.inr ⟨by omega, rootPath_of_root hfd (hnp ▸ hneg)⟩⟩
+      intro u hu
+      rw [List.mem_singleton.mp hu]
+      exact ⟨hnf, r, hph⟩
+    · have hp'in : p' ∈ ids t := hnp ▸ WF_parent_mem hw hn (hnp ▸ hneg)
+      obtain ⟨pre, h1, h2, h3⟩ := ih p (r + 1) hph hpp (fun k hk => by have := hb k hk; omega) hp'in
+      have e : rootPath t p = p :: rootPath t p' := by
+        rw [rootPath_of_nonroot hw hfd (hnp ▸ hneg), hnp]
+      refine ⟨p :: pre, by simp [h1], ?_, ?_⟩
+      · intro u hu
+        rcases List.mem_cons.mp hu with rfl | hu
+        · exact ⟨hnf, r, hph⟩
+        · exact h2 u hu
+      · rcases h3 with ⟨h3a, h3b⟩ | ⟨h3a, h3b⟩
+        · exact Or.inl ⟨h3a, by rw [e, h3b]; rfl⟩
+        · exact Or.inr ⟨h3a, by rw [e, h3b]⟩
+
+theorem find?_append_skip {α} (p : α → Bool) (pre : List α) (a : α) (rest : List α)
+    (hpre : ∀ u ∈ pre, p u = false) (ha : p a = true) : (pre ++ a :: rest).find? p = some a := by
+  induction pre with
+  | nil => simp [List.find?, ha]
+  | cons x xs ih =>
+    rw [List.cons_append, List.find?_cons, hpre x (by simp)]
+    exact ih (fun u hu => hpre u (List.mem_cons_of_mem _ hu))
+
+theorem find?_none_of_all {α} (p : α → Bool) (l : List α) (h : ∀ u ∈ l, p u = false) : l.find? p = none := by
+  rw [List.find?_eq_none]
+  intro u hu
+  simp [h u hu]
+
+theorem idxOf_append_skip (pre : List Int) (a : Int) (rest : List Int) (h : a ∉ pre) :
+    (pre ++ a :: rest).idxOf a = pre.length := by
+  induction pre with
+  | nil => simp
+  | cons x xs ih =>
+    have hx : x ≠ a := fun e => h (by simp [e])
+    rw [List.cons_append, idxOf_cons_ne' _ hx, ih (fun hm => h (List.mem_cons_of_mem _ hm))]
+    rfl
+
 end Navis.Forest
+
+namespace Navis.Resample
+open Navis.Forest
+
+/-- The C13 clauses for a downsampled table `u` of `t` (what `dsCheck` decides): kept rows are original
+rows with unchanged coordinates; the listed fix points are kept; every kept node is linked to the
+*first kept* node on the tail of its old root path (`< 0` when there is none), and with a finite factor
+`k` at most `k` nodes are dropped in between. -/
+def DsSpec (t u : Table) (f : Option Nat) (fix : List Int) : Prop :=
+  (∀ m ∈ u, ∃ n ∈ t, n.id = m.id ∧ n.x = m.x ∧ n.y = m.y ∧ n.z = m.z) ∧
+  (∀ i ∈ fix, i ∈ ids u) ∧
+  (∀ m ∈ u,
+    ((rootPath t m.id).tail.find? (fun a => (ids u).contains a) = none ∧ m.parent < 0) ∨
+    (∃ a, (rootPath t m.id).tail.find? (fun a => (ids u).contains a) = some a ∧ m.parent = a ∧
+      ∀ k, f = some k → (rootPath t m.id).tail.idxOf a ≤ k))
+
+/-- The executable checker is sound for the specification. -/
+theorem dsCheck_sound' {t u : Table} {f : Option Nat} {fix : List Int} (h : dsCheck t u f fix = true) :
+    DsSpec t u f fix := by
+  unfold dsCheck at h
+  simp only [Bool.and_eq_true, List.all_eq_true] at h
+  obtain ⟨⟨h1, h2⟩, h3⟩ := h
+  refine ⟨?_, ?_, ?_⟩
+  · intro m hm
+    have := h1 m hm
+    cases hf : find? t m.id with
+    | none => rw [hf] at this; cases this
+    | some n =>
+      rw [hf] at this
+      simp only [Bool.and_eq_true, beq_iff_eq] at this
+      exact ⟨n, (find?_some hf).1, (find?_some hf).2, this.1.1, this.1.2, this.2⟩
+  · intro i hi
+    simpa using h2 i hi
+  · intro m hm
+    have := h3 m hm
+    cases hfd : (rootPath t m.id).tail.find? (fun a => (ids u).contains a) with
+    | none =>
+      rw [hfd] at this
+      exact Or.inl ⟨rfl, by simpa using this⟩
+    | some a =>
+      rw [hfd] at this
+      simp only [Bool.and_eq_true, beq_iff_eq] at this
+      refine Or.inr ⟨a, rfl, this.1, ?_⟩
+      intro k hk
+      subst hk
+      simpa using this.2
+
+/-- Non-fix nodes of a correctly labelled forest have at most one child. -/
+theorem one_child_of_labels {t : Table} (hw : WF t) (hl : labelsOKB t = true) (pres : List Int) :
+    ∀ i, 0 ≤ i → dsFix t pres i = false → childCount t i ≤ 1 := by
+  intro i _ hnf
+  by_cases hin : i ∈ ids t
+  · obtain ⟨n, hn, rfl⟩ := mem_ids.mp hin
+    unfold dsFix at hnf
+    rw [find?_of_mem hw.1 hn] at hnf
+    simp only [Bool.or_eq_false_iff, bne_eq_false_iff_eq] at hnf
+    have := (labelsOKB_iff t).mp hl n hn
+    rw [hnf.1] at this
+    unfold labelOf at this
+    split at this
+    · cases this
+    · split at this
+      · cases this
+      · split at this
+        · omega
+        · cases this
+  · -- no row can point to an id outside the table
+    have : childCount t i = 0 := by
+      unfold childCount
+      rw [List.length_eq_zero_iff, List.filter_eq_nil_iff]
+      intro n hn hc
+      have hp : n.parent = i := by simpa using hc
+      rcases WF_parents hw n hn with h | h
+      · omega
+      · exact hin (hp ▸ h)
+    omega
+
+/-- **The model satisfies the downsampling specification**: for every well-formed forest in which no
+node with two or more children carries the label `slab` (in particular: correct labels), every factor
+(incl. `inf`) and every preserved set. -/
+theorem downsample_spec {t : Table} (hw : WF t)
+    (f : Option Nat) (pres : List Int)
+    (hone : ∀ i, 0 ≤ i → dsFix t pres i = false → childCount t i ≤ 1)
+    (fix : List Int) (hfix : ∀ i ∈ fix, ∃ n ∈ t, n.id = i ∧ (n.label ≠ .slab ∨ i ∈ pres)) :
+    DsSpec t (downsample t f pres) f fix := by
+  refine ⟨?_, ?_, ?_⟩
+  · intro m hm
+    exact downsample_subset t f pres m hm
+  · intro i hi
+    obtain ⟨n, hn, rfl, hcase⟩ := hfix i hi
+    exact downsample_keeps_fixpoints hw f pres hn hcase
+  · intro m hm
+    by_cases hlen : t.length ≤ 1
+    · -- a well-formed table with at most one row consists of a root
+      rw [downsample_eq, if_pos hlen] at hm ⊢
+      left
+      have hroot : m.parent < 0 := by
+        rcases WF_parents hw m hm with h | h
+        · exact h
+        · exfalso
+          obtain ⟨n, hn, hnid⟩ := mem_ids.mp h
+          have : n = m := by
+            match t, hlen, hm, hn with
+            | [a], _, hm, hn => simp at hm hn; rw [hm, hn]
+          exact WF_no_loop hw m hm (this ▸ hnid).symm
+      rw [rootPath_of_root (find?_of_mem hw.1 hm) hroot]
+      exact ⟨rfl, hroot⟩
+    · obtain ⟨rk, hrk, hle⟩ := WF_rank_le hw
+      have hpos := hw.2.1
+      obtain ⟨n, hn, hid, _, _, _, e, he, hek, hmp⟩ := mem_downsample hlen hm
+      have hkept : ∀ a, a ∈ ids (downsample t f pres) ↔ a ∈ ids t ∧ ∃ e' ∈ dsPairs t f pres, e'.1 = a := by
+        intro a
+        rw [ids_downsample hlen, List.mem_filter, mem_any_fst]
+      have hnotkept : ∀ u mm, dsFix t pres u = false → Phase t (dsFix t pres) f u (mm + 1) →
+          ((ids (downsample t f pres)).contains u) = false := by
+        intro u mm hnf hph
+        rw [Bool.eq_false_iff]
+        intro hc
+        have hc' : u ∈ ids (downsample t f pres) := by simpa using hc
+        obtain ⟨_, e', he', hee⟩ := (hkept u).mp hc'
+        have h0 := dsPairs_phase hpos hrk hle f pres e' he'
+        rw [hee] at h0
+        have := hph.unique hone 0 hnf h0
+        omega
+      obtain ⟨_, p, hpp, hcase⟩ := dsPairs_pairs hpos hrk hle f pres e he
+      rw [hek] at hpp
+      have hpn : p = n.parent := by
+        have := parentOf_of_mem hw.1 hn
+        rw [this] at hpp; exact (Option.some.inj hpp).symm
+      rw [hid]
+      rcases hcase with ⟨hneg, he2⟩ | ⟨hnn, j, hsc, hj⟩
+      · left
+        rw [rootPath_of_root (find?_of_mem hw.1 hn) (hpn ▸ hneg)]
+        exact ⟨rfl, by rw [hmp, he2]; omega⟩
+      · have hpin : p ∈ ids t := hpn ▸ WF_parent_mem hw hn (by rw [← hpn]; omega)
+        have hph0 : Phase t (dsFix t pres) f n.id 0 := by
+          have := dsPairs_phase hpos hrk hle f pres e he
+          rwa [hek] at this
+        obtain ⟨pre, hpl, hpre, hpath⟩ := hsc.path hw n.id 0 hph0 hpp
+          (fun k hk => by have := hj k hk; omega) hpin
+        have htl : (rootPath t n.id).tail = rootPath t p := by
+          rw [rootPath_of_nonroot hw (find?_of_mem hw.1 hn) (by rw [← hpn]; omega), hpn]; rfl
+        rw [htl]
+        have hprek : ∀ u ∈ pre, ((ids (downsample t f pres)).contains u) = false := by
+          intro u hu
+          obtain ⟨hnf, mm, hph⟩ := hpre u hu
+          exact hnotkept u mm hnf hph
+        rcases hpath with ⟨hqin, hq⟩ | ⟨hqneg, hq⟩
+        · right
+          obtain ⟨rest, hrest⟩ := rootPath_cons hqin
+          have hqkept : ((ids (downsample t f pres)).contains e.2) = true := by
+            have hq0 := ids_nonneg hpos hqin
+            rcases (dsPairs_spec hpos hrk hle f pres e he).2 with h | ⟨_, _, e', he', hee⟩
+            · omega
+            · simpa using (hkept e.2).mpr ⟨hqin, e', he', hee⟩
+          refine ⟨e.2, ?_, hmp, ?_⟩
+          · rw [hq, hrest]
+            exact find?_append_skip _ pre e.2 rest hprek hqkept
+          · intro k hk
+            rw [hq, hrest, idxOf_append_skip pre e.2 rest (fun hm' => by
+              have := hprek e.2 hm'; rw [hqkept] at this; cases this)]
+            have := hj k hk; omega
+        · left
+          rw [hq]
+          exact ⟨find?_none_of_all _ pre hprek, by rw [hmp]; exact hqneg⟩
+
+end Navis.Resample
